@@ -947,7 +947,22 @@ fn run_case(case: &Value, variant: usize, rep: &mut Report, cur: Arc<Mutex<(usiz
 fn worker(progress: Arc<AtomicU64>, current: Arc<Mutex<Option<Value>>>, done: Arc<AtomicBool>) {
     let mut rep = Report::new();
     let mut per = BTreeMap::<String, u64>::new();
+    // statistics of the behaviour set (the check requires every action and result kind to occur)
+    let mut last_steps = BTreeMap::<String, u64>::new();
+    let mut kinds = BTreeMap::<String, u64>::new();
+    let mut max_len = 0usize;
+    let mut longest = Value::Null;
     for case in cases_from_arg() {
+        if let Some(st) = case["steps"].as_array() {
+            if let Some(l) = st.last() {
+                *last_steps.entry(format!("{}:{}", case["mode"].as_str().unwrap_or(""), l["a"].as_str().unwrap_or(""))).or_insert(0) += 1;
+                *kinds.entry(l["x"]["k"].as_str().unwrap_or("").to_string()).or_insert(0) += 1;
+            }
+            if st.len() > max_len {
+                max_len = st.len();
+                longest = case.clone();
+            }
+        }
         *current.lock().unwrap() = Some(case.clone());
         let is_sync_read = case["mode"] == "sync"
             && case["side"] == "r"
@@ -974,6 +989,10 @@ fn worker(progress: Arc<AtomicU64>, current: Arc<Mutex<Option<Value>>>, done: Ar
         progress.fetch_add(1, Ordering::SeqCst);
     }
     rep.set("per_kind", json!(per));
+    rep.set("last_steps", json!(last_steps));
+    rep.set("kinds", json!(kinds));
+    rep.set("max_len", json!(max_len));
+    rep.set("longest", longest);
     done.store(true, Ordering::SeqCst);
     rep.finish();
 }
